@@ -506,6 +506,21 @@ def axiom_replay(ctx: Ctx, pairs: List[Dict[str, Any]], seed: int) -> None:
                     # rho_lam(s x) = s rho_{lam s}(x): keep the effective lambda in the admissible range
                     if lam * scale >= 1.0 or scale == 1.0:
                         measures.append((f"qcvar(lam={lam})", (lambda t, lam=lam: F.quadratic_cvar(t, lam, dim=0)), 1e-5, lam))
+                # ... and the criterion MODULES, as long-lived objects whose parameter is re-assigned for every level (a sweep over one
+                # criterion object): the axioms hold for the criterion of the CURRENT parameter
+                def via_module(mod, attr, value):
+                    def rho(t):
+                        setattr(mod, attr, value)
+                        return mod(t)
+                    return rho
+                m_es, m_erm, m_q = nn.ExpectedShortfall(0.3), nn.EntropicRiskMeasure(3.0), nn.QuadraticCVaR(5.0)
+                for p in ps[::2]:
+                    measures.append((f"es(p={p:.3f}) [module]", via_module(m_es, "p", p), 1e-9, None))
+                for a in (0.5, 2.0):
+                    measures.append((f"erm(a={a}/scale) [module]", via_module(m_erm, "a", a / scale), 1e-9, None))
+                for lam in lams:
+                    if lam * scale >= 1.0 or scale == 1.0:
+                        measures.append((f"qcvar(lam={lam}) [module]", via_module(m_q, "lam", lam), 1e-5, lam))
                 for name, rho, tol, lam in measures:
                     tol_abs = tol * scale * 8
                     try:
